@@ -1,1 +1,112 @@
-/* placeholder */
+/*
+ * C01 rung 2: multiplicative layer of include/math/big_num.h.  Included from contracts/bn.h.
+ *
+ * Proved modularly (callee contracts of rung 0/1 replace the callee bodies) and only for small
+ * configurations (W = 8, <= 4 digits): the specifications contain products of wide values.
+ */
+#ifndef VF_CONTRACTS_BN_MUL_H
+#define VF_CONTRACTS_BN_MUL_H
+#ifndef VF_REPLAY
+
+#define VF_MASKW(n)	(VF_POW2W(n) - 1)
+
+/* a = (a * d) mod 2^(W*a_count)  (the carry out of the top digit is dropped as coded; the only
+ * caller, bn_mult_digit, extends a by one zero digit first) */
+static inline void
+bn_digits_mult_digit__int(bn_digit_t *a, size_t a_count, bn_digit_t d)
+__CPROVER_requires(a_count == 0 || (a != NULL && VF_DS_RW(a, a_count)))
+__CPROVER_requires(VF_VALUE(a != NULL && __CPROVER_r_ok(a, sizeof(bn_digit_t))))
+__CPROVER_assigns(a_count != 0: __CPROVER_object_upto(a, VF_DS_SZ(a_count)))
+__CPROVER_ensures(VF_VALUE(VF_DIGITS_VAL(a, a_count) == ((VF_DIGITS_OLD(a, a_count) * d) & VF_MASKW(a_count))))
+;
+/* a = (a + b * d) mod 2^(W*a_count); a_count >= b_count, a and b do not overlap (bn_mult passes
+ * &bn->num[j] and the digits of a temporary copy / of n) */
+static inline void
+bn_digits_add_digit_mult__int(bn_digit_t *a, size_t a_count, bn_digit_t *b, size_t b_count, bn_digit_t d)
+__CPROVER_requires(a_count >= b_count && a != NULL && b != NULL && VF_DS_RW(a, a_count) && VF_DS_R(b, b_count))
+__CPROVER_requires(VF_DS_DISJOINT(a, a_count, b, b_count))
+__CPROVER_requires(VF_VALUE(__CPROVER_r_ok(a, sizeof(bn_digit_t)) && __CPROVER_r_ok(b, sizeof(bn_digit_t))))
+__CPROVER_assigns(b_count != 0: __CPROVER_object_upto(a, VF_DS_SZ(a_count)))
+__CPROVER_ensures(VF_VALUE(VF_DIGITS_VAL(a, a_count) ==
+    ((VF_DIGITS_OLD(a, a_count) + VF_DIGITS_OLD(b, b_count) * d) & VF_MASKW(a_count))))
+;
+/* a = (a - b * d) mod 2^(W*a_count); *borrow (optional) receives what could not be subtracted:
+ * 0/1 when a_count > b_count, a whole digit when a_count == b_count */
+static inline void
+bn_digits_sub_digit_mult__int(bn_digit_t *a, size_t a_count, bn_digit_t *b, size_t b_count, bn_digit_t d,
+    bn_digit_t *borrow)
+__CPROVER_requires(a_count >= b_count && a != NULL && b != NULL && VF_DS_RW(a, a_count) && VF_DS_R(b, b_count))
+__CPROVER_requires(VF_DS_DISJOINT(a, a_count, b, b_count))
+__CPROVER_requires(VF_VALUE(__CPROVER_r_ok(a, sizeof(bn_digit_t)) && __CPROVER_r_ok(b, sizeof(bn_digit_t))))
+__CPROVER_requires(borrow == NULL || (VF_D_OK(borrow) && VF_D_OUTSIDE(borrow, a, a_count) && VF_D_OUTSIDE(borrow, b, b_count)))
+__CPROVER_assigns(b_count != 0: __CPROVER_object_upto(a, VF_DS_SZ(a_count)))
+__CPROVER_assigns(borrow != NULL: *borrow)
+__CPROVER_ensures(VF_VALUE(b_count != 0 ==> VF_DIGITS_VAL(a, a_count) ==
+    ((VF_DIGITS_OLD(a, a_count) + (VF_POW2W(a_count) << VF_W) - VF_DIGITS_OLD(b, b_count) * d) & VF_MASKW(a_count))))
+__CPROVER_ensures(VF_VALUE((borrow != NULL && b_count != 0) ==>
+    VF_DIGITS_VAL(a, a_count) + VF_DIGITS_OLD(b, b_count) * d ==
+    VF_DIGITS_OLD(a, a_count) + ((vf_bnv_t)*borrow) * VF_POW2W(a_count)))
+;
+
+/* bn *= n: zero operand -> 0; EOVERFLOW exactly when both are non-zero and
+ * digits(bn) + digits(n) > count (as coded: the product is not computed then); else exact. */
+static inline int
+bn_mult(bn_p bn, bn_p n)
+__CPROVER_requires(VF_BN_BINOP_PRE(bn, n))
+__CPROVER_assigns(VF_BN_FRAME(bn))
+__CPROVER_ensures(__CPROVER_return_value == ((VF_BN_OLDVAL(bn) != 0 && VF_BN_OLDVAL(n) != 0 &&
+    __CPROVER_old(bn->digits) + __CPROVER_old(n->digits) > bn->count) ? EOVERFLOW : 0))
+__CPROVER_ensures(VF_BN_WF(*bn))
+__CPROVER_ensures(__CPROVER_return_value == 0 ==> VF_BN_VAL(*bn) == VF_BN_OLDVAL(bn) * VF_BN_OLDVAL(n))
+__CPROVER_ensures(__CPROVER_return_value != 0 ==> VF_BN_VAL(*bn) == VF_BN_OLDVAL(bn))
+;
+static inline int
+bn_square(bn_p bn)
+__CPROVER_requires(VF_BN_IN(bn))
+__CPROVER_assigns(VF_BN_FRAME(bn))
+__CPROVER_ensures(__CPROVER_return_value == ((VF_BN_OLDVAL(bn) != 0 && 2 * __CPROVER_old(bn->digits) > bn->count) ? EOVERFLOW : 0))
+__CPROVER_ensures(VF_BN_WF(*bn))
+__CPROVER_ensures(__CPROVER_return_value == 0 ==> VF_BN_VAL(*bn) == VF_BN_OLDVAL(bn) * VF_BN_OLDVAL(bn))
+__CPROVER_ensures(__CPROVER_return_value != 0 ==> VF_BN_VAL(*bn) == VF_BN_OLDVAL(bn))
+;
+/* bn *= n (digit): success implies the exact product; a product that fits count - 1 digits... is
+ * always accepted.  EOVERFLOW may be reported conservatively (as coded: digits == count, n > 3). */
+static inline int
+bn_mult_digit(bn_p bn, bn_digit_t n)
+__CPROVER_requires(VF_BN_IN(bn))
+__CPROVER_assigns(VF_BN_FRAME(bn))
+__CPROVER_ensures(__CPROVER_return_value == 0 || __CPROVER_return_value == EOVERFLOW)
+__CPROVER_ensures(__CPROVER_return_value == 0 ==> VF_BN_WF(*bn))
+__CPROVER_ensures(__CPROVER_return_value == 0 ==> VF_BN_VAL(*bn) == VF_BN_OLDVAL(bn) * n)
+__CPROVER_ensures((VF_BN_OLDVAL(bn) == 0 || n <= 1 || __CPROVER_old(bn->digits) < bn->count) ==> __CPROVER_return_value == 0)
+;
+
+/* bn = bn / d, remainder = bn % d.
+ *   d == 0 -> EINVAL.  Otherwise 0 or EOVERFLOW; on success quotient and remainder are exact.
+ *   remainder == NULL: quotient only; remainder == bn: bn receives the remainder (bn_mod);
+ *   bn == d: quotient 1, remainder 0.
+ *   EOVERFLOW (as coded) only when the dividend fills its capacity and cannot be normalised, or
+ *   when `remainder` has fewer digits of capacity than the remainder needs. */
+static inline int
+bn_div(bn_p bn, bn_p d, bn_p remainder)
+__CPROVER_requires(VF_BN_BINOP_PRE(bn, d))
+__CPROVER_requires(remainder == NULL || remainder == bn ||
+    (VF_BN_OK(remainder) && VF_BN_CNT_OK(remainder) && remainder->digits <= remainder->count &&
+     !__CPROVER_same_object(remainder, bn) && !__CPROVER_same_object(remainder, d)))
+__CPROVER_assigns(VF_BN_FRAME(bn))
+__CPROVER_assigns(remainder != NULL && remainder != bn: VF_BN_FRAME(remainder))
+__CPROVER_ensures(__CPROVER_return_value == 0 || __CPROVER_return_value == EINVAL || __CPROVER_return_value == EOVERFLOW)
+__CPROVER_ensures((__CPROVER_return_value == EINVAL) == (VF_BN_OLDVAL(d) == 0))
+__CPROVER_ensures(__CPROVER_return_value == EOVERFLOW ==> ((__CPROVER_old(bn->digits) == bn->count &&
+    VF_BN_OLDVAL(bn) > VF_BN_OLDVAL(d)) ||
+    (remainder != NULL && remainder != bn && remainder->count < __CPROVER_old(d->digits))))
+__CPROVER_ensures((__CPROVER_return_value == 0 && remainder != bn) ==> (VF_BN_WF(*bn) &&
+    VF_BN_VAL(*bn) == VF_BN_OLDVAL(bn) / VF_BN_OLDVAL(d)))
+__CPROVER_ensures((__CPROVER_return_value == 0 && remainder == bn) ==> (VF_BN_WF(*bn) &&
+    VF_BN_VAL(*bn) == VF_BN_OLDVAL(bn) % VF_BN_OLDVAL(d)))
+__CPROVER_ensures((__CPROVER_return_value == 0 && remainder != NULL && remainder != bn) ==> (VF_BN_WF(*remainder) &&
+    VF_BN_VAL(*remainder) == VF_BN_OLDVAL(bn) % VF_BN_OLDVAL(d)))
+;
+
+#endif /* !VF_REPLAY */
+#endif
